@@ -42,17 +42,18 @@ const (
 
 type zvCase struct {
 	Type           string    `json:"type"`
-	N              int64     `json:"n"`                 // position in the enumeration
-	Local          [4]int    `json:"local"`             // per id: 0 absent, 1 content x, 2 content y
-	LIdx           [4]uint64 `json:"local_index"`       // raft index at which the secondary stored it
-	Remote         [4]int    `json:"remote"`            // per id: 0 absent, 1..6 = content (r-1)%2, modify index (r-1)/2 of {1,5,9}
-	Last           uint64    `json:"last_remote_index"` // lastRemoteIndex handed to the diff
-	Shuffle        bool      `json:"shuffled_input"`    // false: lists in the order production hands them over; true: permuted
-	LocalOnly      int       `json:"local_only_mask"`   // local-scoped tokens / local exported-services present in the secondary
-	LocalEmpty     int       `json:"local_empty_ids"`   // unmigrated (empty AccessorID) items in the local list (tokens)
-	RemoteEmpty    int       `json:"remote_empty_ids"`  // unmigrated items in the remote list (tokens)
-	RemoteExported bool      `json:"remote_exported"`   // primary holds an exported-services entry (config)
-	Aux            uint64    `json:"aux"`               // seed of the per-case choices
+	N              int64     `json:"n"`                      // position in the enumeration
+	Local          [4]int    `json:"local"`                  // per id: 0 absent, 1 content x, 2 content y
+	LIdx           [4]uint64 `json:"local_index"`            // raft index at which the secondary stored it
+	Remote         [4]int    `json:"remote"`                 // per id: 0 absent, 1..6 = content (r-1)%2, modify index (r-1)/2 of {1,5,9}
+	Last           uint64    `json:"last_remote_index"`      // lastRemoteIndex handed to the diff
+	Shuffle        bool      `json:"shuffled_input"`         // false: lists in the order production hands them over; true: permuted
+	LocalOnly      int       `json:"local_only_mask"`        // local-scoped tokens / local exported-services present in the secondary
+	LocalEmpty     int       `json:"local_empty_ids"`        // unmigrated (empty AccessorID) items in the local list (tokens)
+	RemoteEmpty    int       `json:"remote_empty_ids"`       // unmigrated items in the remote list (tokens)
+	RemoteExported bool      `json:"remote_exported"`        // primary holds an exported-services entry (config)
+	Backwards      bool      `json:"remote_index_backwards"` // primary rebuilt: it reports an index below lastRemoteIndex (ACL types, only when coherent with its items)
+	Aux            uint64    `json:"aux"`                    // seed of the per-case choices
 }
 
 func (c *zvCase) rContent(k int) int  { return (c.Remote[k] - 1) % 2 }
@@ -96,6 +97,9 @@ func zvDecode(typ string, n int64, seed uint64) (c zvCase, ok bool) {
 		c.LocalOnly = h.Intn(2)
 		c.RemoteExported = h.Chance(40)
 	}
+	if typ != "config" {
+		c.Backwards = h.Chance(50)
+	}
 	return c, true
 }
 
@@ -111,6 +115,12 @@ type zvRound struct {
 	Panic         string   `json:"panic,omitempty"`
 	Applied       int      `json:"fsm_requests"`
 	AppliedDel    int      `json:"fsm_delete_requests"`
+	Ops           []string `json:"fsm_request_order,omitempty"`
+	ViaProduction bool     `json:"through_replicateACLType"`
+	RoundErr      string   `json:"round_error,omitempty"`
+	RoundIndex    uint64   `json:"round_returned_index"`
+	RemoteIndex   uint64   `json:"remote_index"`
+	Exit          bool     `json:"round_exit,omitempty"`
 }
 
 type zvType struct {
@@ -120,8 +130,9 @@ type zvType struct {
 	cleanup   func(s *state.Store) // removes every object a case may have put into the replicated table
 	setup     func(s *state.Store, c *zvCase)
 	round     func(r *fsmkit.Replica, c *zvCase) zvRound
-	replSet   func(s *state.Store) map[string]string // replicated set: id -> content rendering (incl. hash, excl. raft indexes)
-	localOnly func(s *state.Store) []string          // rows that replication must never touch
+	ref       func(r *fsmkit.Replica, c *zvCase) zvRound // ACL types: the same diff applied by the monitor itself, deletions first (reference order)
+	replSet   func(s *state.Store) map[string]string     // replicated set: id -> content rendering (incl. hash, excl. raft indexes)
+	localOnly func(s *state.Store) []string              // rows that replication must never touch
 	expected  func(c *zvCase) map[string]string
 	localWant func(c *zvCase) map[string]string // what setup is supposed to have produced (harness self check)
 }
@@ -268,9 +279,9 @@ func zvTokRender(t *structs.ACLToken) string {
 	return "hash=" + zvHex(t.Hash) + " " + dump.Render(&c)
 }
 
-// zvTokenRound is one replicateACLType round of the token replicator against the secondary r, the primary
+// zvTokenRef is the reference application (diff, then deletions, then upserts, done by the monitor) against the secondary r, the primary
 // holding the global tokens `remote`.
-func zvTokenRound(r *fsmkit.Replica, remote []*structs.ACLToken, last uint64, shuffle bool, aux uint64, localEmpty, remoteEmpty int) (rd zvRound) {
+func zvTokenRef(r *fsmkit.Replica, remote []*structs.ACLToken, last uint64, shuffle bool, aux uint64, localEmpty, remoteEmpty int) (rd zvRound) {
 	// FetchLocal
 	_, local, err := r.State().ACLTokenList(nil, false, true, "", "", "", nil, structs.ReplicationEnterpriseMeta())
 	zvMust(err)
@@ -350,7 +361,16 @@ var zvTokenType = &zvType{
 				remote = append(remote, zvTok(k, c.rContent(k), c.rIndex(k)))
 			}
 		}
-		return zvTokenRound(r, remote, c.Last, c.Shuffle, c.Aux, c.LocalEmpty, c.RemoteEmpty)
+		return zvTokenRound(r, remote, c.Last, c.Shuffle, c.Aux, c.LocalEmpty, c.RemoteEmpty, c.Backwards)
+	},
+	ref: func(r *fsmkit.Replica, c *zvCase) zvRound {
+		var remote []*structs.ACLToken
+		for k := 0; k < 4; k++ {
+			if c.Remote[k] != 0 {
+				remote = append(remote, zvTok(k, c.rContent(k), c.rIndex(k)))
+			}
+		}
+		return zvTokenRef(r, remote, c.Last, c.Shuffle, c.Aux, c.LocalEmpty, c.RemoteEmpty)
 	},
 	replSet: func(s *state.Store) map[string]string {
 		_, l, err := s.ACLTokenList(nil, false, true, "", "", "", nil, structs.ReplicationEnterpriseMeta())
@@ -413,8 +433,8 @@ func zvPolRender(p *structs.ACLPolicy) string {
 	return "hash=" + zvHex(p.Hash) + " " + dump.Render(&c)
 }
 
-// zvPolicyRound is one replicateACLType round of the policy replicator.
-func zvPolicyRound(r *fsmkit.Replica, remote []*structs.ACLPolicy, last uint64, shuffle bool, aux uint64) (rd zvRound) {
+// zvPolicyRef: reference application for policies (see zvTokenRef).
+func zvPolicyRef(r *fsmkit.Replica, remote []*structs.ACLPolicy, last uint64, shuffle bool, aux uint64) (rd zvRound) {
 	_, local, err := r.State().ACLPolicyList(nil, structs.ReplicationEnterpriseMeta())
 	zvMust(err)
 	var stubs structs.ACLPolicyListStubs // ACL.PolicyList
@@ -476,7 +496,16 @@ var zvPolicyType = &zvType{
 				remote = append(remote, zvPol(k, c.rContent(k), c.rIndex(k)))
 			}
 		}
-		return zvPolicyRound(r, remote, c.Last, c.Shuffle, c.Aux)
+		return zvPolicyRound(r, remote, c.Last, c.Shuffle, c.Aux, c.Backwards)
+	},
+	ref: func(r *fsmkit.Replica, c *zvCase) zvRound {
+		var remote []*structs.ACLPolicy
+		for k := 0; k < 4; k++ {
+			if c.Remote[k] != 0 {
+				remote = append(remote, zvPol(k, c.rContent(k), c.rIndex(k)))
+			}
+		}
+		return zvPolicyRef(r, remote, c.Last, c.Shuffle, c.Aux)
 	},
 	replSet: func(s *state.Store) map[string]string {
 		_, l, err := s.ACLPolicyList(nil, structs.ReplicationEnterpriseMeta())
@@ -531,8 +560,8 @@ func zvRoleRender(ro *structs.ACLRole) string {
 	return "hash=" + zvHex(ro.Hash) + " " + dump.Render(&c)
 }
 
-// zvRoleRound is one replicateACLType round of the role replicator (ACL.RoleList returns full roles).
-func zvRoleRound(r *fsmkit.Replica, remote structs.ACLRoles, last uint64, shuffle bool, aux uint64) (rd zvRound) {
+// zvRoleRef: reference application for roles (see zvTokenRef).
+func zvRoleRef(r *fsmkit.Replica, remote structs.ACLRoles, last uint64, shuffle bool, aux uint64) (rd zvRound) {
 	_, local, err := r.State().ACLRoleList(nil, "", structs.ReplicationEnterpriseMeta())
 	zvMust(err)
 	if shuffle {
@@ -590,7 +619,16 @@ var zvRoleType = &zvType{
 				remote = append(remote, zvRole(k, c.rContent(k), c.rIndex(k)))
 			}
 		}
-		return zvRoleRound(r, remote, c.Last, c.Shuffle, c.Aux)
+		return zvRoleRound(r, remote, c.Last, c.Shuffle, c.Aux, c.Backwards)
+	},
+	ref: func(r *fsmkit.Replica, c *zvCase) zvRound {
+		var remote structs.ACLRoles
+		for k := 0; k < 4; k++ {
+			if c.Remote[k] != 0 {
+				remote = append(remote, zvRole(k, c.rContent(k), c.rIndex(k)))
+			}
+		}
+		return zvRoleRef(r, remote, c.Last, c.Shuffle, c.Aux)
 	},
 	replSet: func(s *state.Store) map[string]string {
 		_, l, err := s.ACLRoleList(nil, "", structs.ReplicationEnterpriseMeta())
@@ -970,7 +1008,7 @@ func (k *zvSink) flush(run *core.Run) {
 
 // zvJudge runs one case against a secondary at its baseline and reports violations under site `site`.
 func zvJudge(sink *zvSink, order int64, pool zvPool, ty *zvType, site string, c any, cdesc string, want map[string]string, localWant map[string]string,
-	setup func(s *state.Store), round func(r *fsmkit.Replica) zvRound) (rd zvRound, equalBefore bool) {
+	setup func(s *state.Store), round func(r *fsmkit.Replica) zvRound, ref func(r *fsmkit.Replica) zvRound) (rd zvRound, equalBefore bool) {
 	env := pool.get(ty)
 	r := env.r
 	s := r.State()
@@ -1022,8 +1060,37 @@ func zvJudge(sink *zvSink, order int64, pool zvPool, ty *zvType, site string, c 
 			viol("empty-id-in-result", "an unmigrated (empty id) item is scheduled for a write")
 		}
 	}
-	for i, e := range rd.Errs {
-		viol("apply-rejected:"+rd.ErrOps[i], "the secondary's FSM rejected a request of the round: "+e)
+	if len(rd.Errs) > 0 {
+		// Would the same diff, applied deletions first, have gone through? Then the round code is to blame, not the input.
+		refOK := false
+		if ref != nil && rd.ViaProduction {
+			e2 := zvPool(nil).get(ty)
+			setup(e2.r.State())
+			r2 := ref(e2.r)
+			cl, _ := zvMapDiff(ty.replSet(e2.r.State()), want)
+			refOK = cl == "" && len(r2.Errs) == 0 && r2.Panic == ""
+			e2.r.Close()
+		}
+		for i, e := range rd.Errs {
+			if refOK {
+				viol("round-failed-though-deletions-first-succeeds:"+rd.ErrOps[i], fmt.Sprintf("the round submitted %v and the secondary's FSM rejected a request (%s; round error %q), although applying the same deletions and then the same upserts makes the secondary equal to the primary", rd.Ops, e, rd.RoundErr))
+			} else {
+				viol("apply-rejected:"+rd.ErrOps[i], "the secondary's FSM rejected a request of the round: "+e)
+			}
+		}
+	}
+	if rd.ViaProduction {
+		switch {
+		case rd.RoundErr != "" && len(rd.Errs) == 0:
+			viol("round-error-without-rejected-write", "replicateACLType returned an error although no write was rejected: "+rd.RoundErr)
+		case rd.RoundErr == "" && len(rd.Errs) > 0:
+			viol("round-swallowed-rejected-write", "replicateACLType reported success although the FSM rejected a write")
+		case rd.RoundErr == "" && !rd.Exit && rd.RoundIndex != rd.RemoteIndex:
+			viol("round-returned-wrong-index", fmt.Sprintf("replicateACLType returned index %d, the primary reported %d", rd.RoundIndex, rd.RemoteIndex))
+		}
+		if rd.Exit {
+			viol("round-exit-without-cancel", "replicateACLType asked to exit although its context was never cancelled")
+		}
 	}
 	if equalBefore && rd.Applied > 0 {
 		k := "upsert"
@@ -1032,7 +1099,7 @@ func zvJudge(sink *zvSink, order int64, pool zvPool, ty *zvType, site string, c 
 		}
 		viol("write-when-equal:"+k, fmt.Sprintf("the secondary already equalled the primary but %d write request(s) were submitted", rd.Applied))
 	}
-	if cl, d := zvMapDiff(replAfter, want); cl != "" && len(rd.Errs) == 0 {
+	if cl, d := zvMapDiff(replAfter, want); cl != "" && len(rd.Errs) == 0 && rd.RoundErr == "" {
 		viol("replicated-set-differs:"+cl, "after applying the round "+d)
 	}
 	lonlyAfter := ty.localOnly(s)
@@ -1051,9 +1118,13 @@ func zvJudge(sink *zvSink, order int64, pool zvPool, ty *zvType, site string, c 
 func zvRunCase(run *core.Run, sink *zvSink, pool zvPool, ty *zvType, c *zvCase) {
 	want := ty.expected(c)
 	cdesc := fmt.Sprintf("case n=%d local=%v remote=%v lastRemoteIndex=%d shuffled=%v", c.N, c.Local, c.Remote, c.Last, c.Shuffle)
+	var ref func(r *fsmkit.Replica) zvRound
+	if ty.ref != nil {
+		ref = func(r *fsmkit.Replica) zvRound { return ty.ref(r, c) }
+	}
 	rd, equal := zvJudge(sink, c.N, pool, ty, ty.name, c, cdesc, want, ty.localWant(c),
 		func(s *state.Store) { ty.setup(s, c) },
-		func(r *fsmkit.Replica) zvRound { return ty.round(r, c) })
+		func(r *fsmkit.Replica) zvRound { return ty.round(r, c) }, ref)
 	run.Eval()
 	run.Count("cases:" + ty.name)
 	run.CountN("fsm-requests-applied", rd.Applied)
@@ -1120,14 +1191,17 @@ func zvRunCase(run *core.Run, sink *zvSink, pool zvPool, ty *zvType, c *zvCase) 
 	}
 	if c.LocalEmpty > 0 {
 		cls("unmigrated-local")
-		if rd.LocalSkipped == c.LocalEmpty {
-			run.Count("unmigrated-local-skipped-as-documented")
-		}
 	}
 	if c.RemoteEmpty > 0 {
 		cls("unmigrated-remote")
-		if rd.RemoteSkipped == c.RemoteEmpty {
-			run.Count("unmigrated-remote-skipped-as-documented")
+	}
+	if rd.ViaProduction {
+		run.Count("rounds-through-replicateACLType")
+		if rd.RemoteIndex < c.Last {
+			cls("remote-index-went-backwards(full-sync)")
+		}
+		if rd.AppliedDel > 0 && rd.Applied > rd.AppliedDel {
+			run.Count("rounds-with-delete-and-upsert-phase")
 		}
 	}
 	if c.RemoteExported {
@@ -1159,9 +1233,10 @@ func zvParallel(workers int, n int64, fn func(pool zvPool, i int64)) {
 
 func TestZZVerifC19(t *testing.T) {
 	run := core.NewRun("C19", "exploration",
-		"Part A, per type (tokens, policies, roles, config entries): positions of the enumeration {input order: production|permuted} x {local: per id absent|x|y}^4 x {remote: per id absent|(x|y)x(modify index 1|5|9)}^4 x {lastRemoteIndex 0|4|9} (1 166 886 positions), those inconsistent with history dropped (750 854 remain); thorough: all of them, quick: 20 000 seed-drawn consistent positions per type. Each case: real secondary store holding `local` (+ per-case drawn local-scoped tokens / local exported-services, unmigrated empty-id list items, sentinel rows in unrelated tables), production diff on the production reads, result applied through a real FSM, then replicated set vs primary by (id, hash, full content), local-only rows, all other tables and index rows, and no-write-when-equal. non-trivial = ids overlap and the round wrote something and also left something alone (or both deleted and upserted); distinct by (type, position). Part B (both tiers, exhaustive): the same oracle on content the secondary's store constrains - 64 scenarios of a token re-created in the primary under the same accessor with a new secret; all 34x34 pairs of unique-name assignments over 3 ids x 3 names for policies and for roles; all 13x13 pairs of valid sets over {proxy-defaults http, service-defaults http, service-router, ingress-gateway http listener} x 2 input orders; each also replayed for up to 4 identical rounds to record whether retries converge.")
+		"Part A, per type (tokens, policies, roles, config entries): positions of the enumeration {input order: production|permuted} x {local: per id absent|x|y}^4 x {remote: per id absent|(x|y)x(modify index 1|5|9)}^4 x {lastRemoteIndex 0|4|9} (1 166 886 positions), those inconsistent with history dropped (750 854 remain); thorough: all of them, quick: 20 000 seed-drawn consistent positions per type. Each case: real secondary store holding `local` (+ per-case drawn local-scoped tokens / local exported-services, unmigrated empty-id list items, sentinel rows in unrelated tables), production diff on the production reads, result applied through a real FSM, then replicated set vs primary by (id, hash, full content), local-only rows, all other tables and index rows, and no-write-when-equal. non-trivial = ids overlap and the round wrote something and also left something alone (or both deleted and upserted); distinct by (type, position). Part B (both tiers, exhaustive): the same oracle on content the secondary's store constrains - 64 scenarios of a token re-created in the primary under the same accessor with a new secret; all 34x34 pairs of unique-name assignments over 3 ids x 3 names for policies and for roles; all 13x13 pairs of valid sets over {proxy-defaults http, service-defaults http, service-router, ingress-gateway http listener} x 2 input orders; each also replayed for up to 4 identical rounds to record whether retries converge. ACL rounds of parts A and B run through the real (*Server).replicateACLType (minimal Server, replicator doubles embedding the production replicators); a rejected round is attributed by replaying the same diff deletions-first. Part C: a real primary/secondary server pair, the primary walked through 150 (quick) / 1200 (thorough) states of a 6-slot config-entry universe via its endpoints, one real replicateConfig round judged per step.")
 	run.Assume(
-		"UpdateLocalBatch/DeleteLocalBatch/reconcileLocalConfig need a raft-backed Server: the monitor builds the same request structs field for field and replays the same batching loops, submitting them to a real fsm.FSM (msgpack encode + production decode)",
+		"parts A/B, ACL types: replicateACLType, deleteLocalACLType, updateLocalACLType, diffACLType, SortState/Meta accessors, ensureRemoteConsistent, FetchLocal and the role FetchUpdated are the production code; DeleteLocalBatch/UpdateLocalBatch need raft, the doubles submit the same request structs (copied field for field) to the secondary's real fsm.FSM (msgpack encode + production decode)",
+		"parts A/B, config entries: replicateConfig cannot run without a primary server; the monitor replays its delete-then-upsert order and reconcileLocalConfig's loop (exported-services skipped, errors accumulated) against a real fsm.FSM; part C runs the real replicateConfig on a real server pair",
 		"FetchRemote/FetchUpdated of tokens and policies are RPCs to the primary: the remote list is built from objects constructed the way the primary's endpoints construct them (SetHash / Normalize+Validate, raft indexes as stored) and FetchUpdated is answered from those objects by id; the role replicator's FetchUpdated and every ensureRemoteConsistent are the production code",
 		"the secondary's own modify index of a local object is not an input of the diff; it is drawn per case from {1,5,9}",
 		"CE build: one partition/namespace")
@@ -1212,6 +1287,8 @@ func TestZZVerifC19(t *testing.T) {
 		sink.flush(run)
 	}
 	zvPartB(run, sink)
+	sink.flush(run)
+	zvPartC(t, run, sink)
 	sink.flush(run)
 	run.Extra("enumeration_space_per_type", zvSpace)
 	run.Extra("exhaustive", core.Thorough())
